@@ -49,9 +49,9 @@ type jn struct {
 	b    bool
 }
 
-func jobj() *jn                { return &jn{kind: 'o'} }
-func jarr(v ...*jn) *jn        { return &jn{kind: 'a', vals: v} }
-func jstr(s string) *jn        { return &jn{kind: 's', s: s} }
+func jobj() *jn                   { return &jn{kind: 'o'} }
+func jarr(v ...*jn) *jn           { return &jn{kind: 'a', vals: v} }
+func jstr(s string) *jn           { return &jn{kind: 's', s: s} }
 func (o *jn) put(k string, v *jn) { o.keys = append(o.keys, k); o.vals = append(o.vals, v) }
 
 func (j *JSON) str(s string) *jn {
